@@ -393,7 +393,18 @@ def solve_obligation(ob, rng, pre=None):
         res = Result(ob, "unsat", pre[1], pre[3])
         res.twin = pre[2]
         return res
-    verdict, model, secs, info = smt.check_sat(hyps + [z3.Not(goal)], ob.timeout_s, ob.tactic, ob.schemas)
+    pins = []
+    if pre is not None and pre[0] == "sat" and len(pre) > 4 and pre[4]:
+        # the external solver already found a model: pin the input constants to it so that the in-process solve is an evaluation
+        cs = []
+        for e in ob.encs:
+            cs += consts_of(e.sym_args)
+            for d in e.I.draws:
+                cs += [c for c in cells(d["out"]) if z3.is_expr(c) and z3.is_const(c)]
+        pins = smt.pins_from_model_text(pre[4], cs)
+    verdict, model, secs, info = smt.check_sat(hyps + [z3.Not(goal)] + pins, ob.timeout_s, ob.tactic, ob.schemas)
+    if pins and verdict != "sat":
+        verdict, model, secs, info = smt.check_sat(hyps + [z3.Not(goal)], ob.timeout_s, ob.tactic, ob.schemas)
     res = Result(ob, verdict, secs + (pre[1] if pre else 0.0), info)
     if verdict == "unsat" and ob.twin:
         tv, _, tsecs, _ = smt.check_sat(hyps, min(ob.timeout_s, 60), ob.tactic, ob.schemas)
@@ -463,7 +474,7 @@ def solve_parallel(obligations, workers=None):
             if ob.twin and (k, "twin") in out:
                 tw = out[(k, "twin")][0]
                 secs += out[(k, "twin")][1]
-            pre[k] = (v, secs, tw, info)
+            pre[k] = (v, secs, tw, info, msg if v == "sat" else "")
         return pre
     finally:
         shutil.rmtree(tmp, ignore_errors=True)
